@@ -392,6 +392,38 @@ func CheckC16(env *core.Env, rep *core.Report) *core.Result {
 			}
 		}
 	}
+	// YAML's own notation for sharing: anchors, aliases, a merge key whose value is overridden, two
+	// merged anchors that share a key. Written out in full as JSON it is the same configuration.
+	{
+		d := env.Sub("fmtanchor")
+		trace := filepath.Join(d, "trace")
+		var yml string
+		// unknown top-level keys are rejected by the loader, so the anchors live inside the tasks section
+		yml = fmt.Sprintf("tasks:\n  v: &base\n    command: [\"/bin/echo base >> %s\"]\n    env: {A: \"1\", B: \"2\"}\n  w: &extra\n    command: [\"/bin/echo w >> %s\"]\n    env: {B: \"3\"}\n    description: shared\n  t:\n    <<: *base\n    command: [\"/bin/echo own-$A-$B >> %s\"]\n  u:\n    <<: [*extra, *base]\n", trace, trace, trace)
+		jsn := fmt.Sprintf(`{"tasks": {"v": {"command": ["/bin/echo base >> %s"], "env": {"A": "1", "B": "2"}}, "w": {"command": ["/bin/echo w >> %s"], "env": {"B": "3"}, "description": "shared"}, "t": {"command": ["/bin/echo own-$A-$B >> %s"], "env": {"A": "1", "B": "2"}}, "u": {"command": ["/bin/echo w >> %s"], "env": {"B": "3"}, "description": "shared"}}}`, trace, trace, trace, trace)
+		_ = ioutil.WriteFile(filepath.Join(d, "a.yaml"), []byte(yml), 0o644)
+		_ = ioutil.WriteFile(filepath.Join(d, "a.json"), []byte(jsn), 0o644)
+		outs := map[string]string{}
+		for _, f := range []string{"yaml", "json"} {
+			var all strings.Builder
+			for _, args := range [][]string{{"list"}, {"show", "t"}, {"show", "u"}, {"--raw", "t"}, {"--raw", "u"}, {"--raw", "v"}} {
+				_ = ioutil.WriteFile(trace, nil, 0o644)
+				res := e.run(d, "", 20*time.Second, append([]string{"-c", filepath.Join(d, "a."+f)}, args...)...)
+				atomic.AddInt64(&runs, 1)
+				tb, _ := ioutil.ReadFile(trace)
+				st := normalise(strings.ReplaceAll(res.Stdout, "a."+f, "a.X"), d)
+				if strings.HasPrefix(args[0], "--raw") {
+					st = ""
+				}
+				fmt.Fprintf(&all, "%v: exit=%d crashed=%v trace=%q\n%s\n", args, res.Exit, res.Crashed() || res.TimedOut, string(tb), st)
+			}
+			outs[f] = all.String()
+		}
+		if outs["yaml"] != outs["json"] || !strings.Contains(outs["yaml"], "[list]: exit=0") {
+			rep.Add(core.Finding{Prop: "C16", Key: "C16:yaml-anchors-and-merge-keys-differ-from-the-written-out-json", What: "a YAML file that uses anchors and merge keys (one merged value overridden, two merged anchors sharing a key) and the same configuration written out as JSON give different results",
+				Detail: map[string]interface{}{"yaml": yml, "json": jsn, "yaml_results": clipS(outs["yaml"], 1500), "json_results": clipS(outs["json"], 1500)}})
+		}
+	}
 	return e.result("model_checking", int(runs), len(sel),
 		"abstract configurations from Formats.tla (16 features: command scalar/list, before/after absent/scalar/list, timeout string/int, allow_failure, env and variables with string or numeric/boolean values, variations, condition, context plain/with executable struct, depends_on scalar/list, import same-format/cross-format, watcher scalar/list fields, stage env, dir, exportas; default + all single + all pairs; quick: all singles and 40% of pairs), each serialised to YAML, JSON and TOML with the libraries taskctl itself uses and given to list, show main, show dep, graph p, run main, run p, run dep main; exit status, executed commands and (for non-run commands) normalised stdout must agree pairwise, and agree with the model's Built; eight of them are also fetched over HTTP from a loopback server that labels them text/plain, application/octet-stream or not at all",
 		map[string]interface{}{"vectors_in_model": len(cases), "vectors_run": len(sel)},
